@@ -33,6 +33,7 @@ func run(c *fw.Ctx) {
 	tcpAborts(c)
 	fsx.Interference(c, mon)
 	cancelMatrix(c)
+	permSlice(c)
 }
 
 // --- (b) conditional requests that must fail --------------------------------
